@@ -34,6 +34,11 @@ def _guards(v: View, before_top: int):
         if ret is None or ERR not in cast.term_refs(ret) or not any(x[0] == "un" and x[1] == "-" for x in cast.subterms(ret)):
             continue
         c = cast.term(s.node["inner"][0])
+        size_call0 = ("mcall", THIS, "size", ())
+        if c[0] == "bin" and c[1] == "==" and ((c[2] == size_call0 and is_int(c[3], 0)) or (c[3] == size_call0 and is_int(c[2], 0))):
+            c = ("bin", "<", size_call0, ("int", 1, "unsigned int"))      # nothing left  ==  less than one bit left
+        if c[0] == "un" and c[1] == "!" and c[2] == size_call0:
+            c = ("bin", "<", size_call0, ("int", 1, "unsigned int"))
         if c[0] != "bin" or c[1] not in ("<", "<=", ">", ">="):
             continue
         op, a, b = c[1], c[2], c[3]
@@ -150,29 +155,7 @@ def _dst_capacity(d, v: View):
 PRIMITIVE_METHODS = {SATM, "copyTo", "size", "getU8", "getU16", "getU32", "getU64", "setUxx", "setZeros", "subspan", "aligned_ref", "aligned_ptr"}
 
 
-def _norm(t):
-    """one spelling for min written as a conditional and for the remaining-bits idiom:
-       (a < b) ? a : b  ->  min(a, b);     (a < b) ? 0 : a - b  ->  a - min(a, b)"""
-    if not isinstance(t, tuple) or not t:
-        return t
-    if t and isinstance(t[0], str):
-        t = tuple(_norm(x) if isinstance(x, tuple) else x for x in t)
-    else:
-        return tuple(_norm(x) if isinstance(x, tuple) else x for x in t)
-    if t[0] == "cond" and t[1][0] == "bin" and t[1][1] in ("<", "<=", ">", ">="):
-        op, a, b = t[1][1], t[1][2], t[1][3]
-        if op in (">", ">="):
-            a, b, op = b, a, "<" if op == ">" else "<="          # a < b
-        yes, no = t[2], t[3]
-        if (yes, no) in ((a, b),):
-            return ("call", "min", (a, b))
-        if (yes, no) == (b, a):
-            return ("call", "max", (a, b))
-        if is_int(yes, 0) and no == ("bin", "-", a, b):
-            return ("bin", "-", a, ("call", "min", (a, b)))        # a < b ? 0 : a - b
-        if is_int(no, 0) and yes == ("bin", "-", b, a):
-            return ("bin", "-", b, ("call", "min", (b, a)))        # a < b ? b - a : 0
-    return t
+from ._c14_common import norm as _norm  # noqa: E402
 
 
 def _strip_self(t):
